@@ -26,6 +26,7 @@ struct mdict {
   mdict(const mdict &o) { n = o.n; rev = o.rev; d[0] = o.d[0]; d[1] = o.d[1]; }
   mdict &operator=(const mdict &o) { n = o.n; rev = o.rev; d[0] = o.d[0]; d[1] = o.d[1]; return *this; }
   unsigned size() const { return n; }
+  bool empty() const { return n == 0; }
   term *begin() const { return &d[0]; }
   term at(unsigned k) const { term t; unsigned i = (rev && n == 2) ? 1 - k : k; t.first = d[i < 2 ? i : 0].first; t.second = d[i < 2 ? i : 0].second; return t; }
 };
@@ -39,6 +40,43 @@ inline bool unified_eq(const mdict &a, const mdict &b)
   if (a.n == 1) return term_eq(a.d[0], b.d[0]);
   return (term_eq(a.d[0], b.d[0]) && term_eq(a.d[1], b.d[1])) || (term_eq(a.d[0], b.d[1]) && term_eq(a.d[1], b.d[0]));
 }
+#ifdef MPOLY_CMP
+/* ---- C02 stubs, written from dict.h (trusted): unified_compare<T> (== then <), ordered_compare on the variable set with the
+   symbols' __cmp__ (opaque injective ranking CMPRANK: an assumed total order consistent with eq), unordered_compare on the term
+   dictionary (sizes, then keys sorted with std::less<vec_uint> = lexicographic, then key / value comparison in that order). */
+inline int unified_compare(const long &a, const long &b) { if (a == b) return 0; return a < b ? -1 : 1; }
+unsigned CMPRANK[4];
+inline int sym_cmp(int u, int v) { unsigned a = CMPRANK[u >= 0 && u < 4 ? u : 0], b = CMPRANK[v >= 0 && v < 4 ? v : 0]; if (a == b) return 0; return a < b ? -1 : 1; }
+inline int unified_compare(const vset &a, const vset &b)
+{
+  if (a.n != b.n) return a.n < b.n ? -1 : 1;
+  for (unsigned i = 0; i < 2; i++) if (i < a.n) { int t = sym_cmp(a.d[i], b.d[i]); if (t != 0) return t; }
+  return 0;
+}
+inline bool evec_less(const evec &a, const evec &b)       /* std::vector operator< : lexicographic */
+{
+  for (unsigned i = 0; i < 2; i++) { if (i >= b.n) return false; if (i >= a.n) return true; if (a.d[i] < b.d[i]) return true; if (b.d[i] < a.d[i]) return false; }
+  return false;
+}
+inline int unified_compare(const mdict &a, const mdict &b)
+{
+  if (a.n != b.n) return a.n < b.n ? -1 : 1;
+  term a0, a1, b0, b1;        /* the terms in key order (named objects: no symbolic index into the arrays) */
+  if (a.n == 2 && evec_less(a.d[1].first, a.d[0].first)) { a0 = a.d[1]; a1 = a.d[0]; } else { a0 = a.d[0]; a1 = a.d[1]; }
+  if (b.n == 2 && evec_less(b.d[1].first, b.d[0].first)) { b0 = b.d[1]; b1 = b.d[0]; } else { b0 = b.d[0]; b1 = b.d[1]; }
+  if (a.n >= 1) {
+    if (evec_less(a0.first, b0.first)) return -1;
+    if (evec_less(b0.first, a0.first)) return 1;
+    int t = unified_compare(a0.second, b0.second); if (t != 0) return t;
+  }
+  if (a.n >= 2) {
+    if (evec_less(a1.first, b1.first)) return -1;
+    if (evec_less(b1.first, a1.first)) return 1;
+    int t = unified_compare(a1.second, b1.second); if (t != 0) return t;
+  }
+  return 0;
+}
+#endif
 hash_t NAMEHASH[4];               /* opaque: what hash_combine<std::string>(seed, var->__str__()) mixes in for variable id v */
 inline void hash_combine_name(hash_t &seed, int var) { hash_combine<hash_t>(seed, NAMEHASH[var >= 0 && var < 4 ? var : 0]); }
 /* vec_hash<vec_uint>()(v): the real template text (vechash.inc), instantiated for the exponent-vector stub */
@@ -55,6 +93,9 @@ struct MIntPoly {
   hash_t __hash__() const;
 #include "mpoly_const.inc"
 #include "mpoly_eq.inc"
+#ifdef MPOLY_CMP
+#include "mpoly_cmp.inc"
+#endif
 };
 #include "mpoly_hash.inc"
 
@@ -94,3 +135,22 @@ extern "C" void h_mpoly(void)
   OBL("C01.MIntPoly.equal_constants_over_any_variables_are_eq", !(spec_constant(P) && spec_constant(Q) && P.poly_.dict_.n == Q.poly_.dict_.n && (P.poly_.dict_.n == 0 || P.poly_.dict_.d[0].second == Q.poly_.dict_.d[0].second)) || e);
   REACHABLE("h_mpoly");
 }
+
+#ifdef MPOLY_CMP
+/* C02: compare of two polynomials is a three-way total order whose zero is exactly eq (Basic::__cmp__ calls compare when the type codes agree) */
+extern "C" void h_mpoly_cmp(void)
+{
+  for (unsigned k = 0; k < 4; k++) { NAMEHASH[k] = nondet_ulong(); CMPRANK[k] = nondet_uint(); }
+  __CPROVER_assume(CMPRANK[0] != CMPRANK[1] && CMPRANK[0] != CMPRANK[2] && CMPRANK[0] != CMPRANK[3] && CMPRANK[1] != CMPRANK[2] && CMPRANK[1] != CMPRANK[3] && CMPRANK[2] != CMPRANK[3]);
+  MIntPoly P, Q, S; Basic PB, QB, SB; any_poly(P, PB); any_poly(Q, QB); any_poly(S, SB);
+  verif_may_throw = false;
+  int pq = P.compare(QB), qp = Q.compare(PB), qs = Q.compare(SB), ps = P.compare(SB);
+  bool e = P.__eq__(QB);
+  OBL("C02.MIntPoly.cmp.range", pq == -1 || pq == 0 || pq == 1);
+  OBL("C02.MIntPoly.cmp.zero_iff_eq", (pq == 0) == e);
+  OBL("C02.MIntPoly.cmp.antisymmetric", pq == -qp);
+  OBL("C02.MIntPoly.cmp.transitive", !(pq <= 0 && qs <= 0) || (ps <= 0 && (ps < 0 || (pq == 0 && qs == 0))));
+  OBL("C02.MIntPoly.cmp.reflexive_on_one_object", P.compare(PB) == 0);
+  REACHABLE("h_mpoly_cmp");
+}
+#endif
